@@ -330,7 +330,7 @@ pub fn run(ctx: &mut Ctx) {
         verdict(open_k6, &case, st, true)
     });
 
-    let cases = ctx.tier.pick(200_000u64, 3_000_000u64);
+    let cases = ctx.tier.pick(1_000_000u64, 8_000_000u64);
     ctx.pbt("c12-random", cases, 900, |t, st| {
         let case = gen_case(t, false);
         st.label(match case.lines.len() {
